@@ -202,9 +202,12 @@ def install_limit():
             sb = self._idx_to_sb_idx(index)
         except Exception:
             sb = None
-        dropped = sb is None or not (0 <= sb < n)
-        EV.append(dict(k="limit-inc", lim=id(self), name=self.name, s=index, c=sb, dropped=dropped, value=self.value))
-        return real_inc(self, index, resource)
+        r = real_inc(self, index, resource)
+        filtered = self.resource is not None and self.resource != resource
+        dropped = (not filtered) and (sb is None or not (0 <= sb < len(self._scoreboard)))   # judged AFTER the call: counters may grow
+        after = self._scoreboard[sb] if (sb is not None and 0 <= sb < len(self._scoreboard)) else None
+        EV.append(dict(k="limit-inc", lim=id(self), name=self.name, s=index, c=sb, dropped=dropped, value=self.value, after=after, filtered=filtered))
+        return r
     lm.Limit.inc = inc
     real_ok = lm.Limit.ok
 
